@@ -260,9 +260,10 @@ def correspond(ctx):
     # directed cases: the target_dimension = N-1 corner, d up to 4 for every method, all three neighbour methods
     rr = r.fork()
     for m in ("klle", "kltsa"):
-        s = make_spec(rr.fork(), "embed", m, quick, force={"N": 8, "D": 7, "kind": "cloud", "kern": "linear", "k": 7})
-        s["d"] = 7
-        specs.append(s)
+        if m == "klle":     # (KLTSA needs d <= k-2: the d = N-1 corner is outside its domain)
+            s = make_spec(rr.fork(), "embed", m, quick, force={"N": 8, "D": 7, "kind": "cloud", "kern": "linear", "k": 7})
+            s["d"] = 7
+            specs.append(s)
         for nm in ("brute", "vptree", "covertree"):
             s = make_spec(rr.fork(), "embed", m, quick, force={"d": 4, "kind": "cloud", "D": 6})
             s["nm"] = nm
